@@ -208,6 +208,26 @@ SEEDS = {
            "two trees whose preambles differ only by a leading U+FEFF compare equal"),
  'C20-g': ('C20', "_end_section lookahead also matches '#diffx:' anywhere",
            "section content containing the characters '#diffx:'"),
+ 'C01-h': ('C01', "reader strips indentation of ASCII-newline content with one multiline regex (^ matches after every LF)",
+           "dos preamble with indent >= 1 containing a bare LF followed by a space"),
+ 'C02-h': ('C02', "write_meta sorts keys with its own recursive helper (dict and list only) instead of sort_keys=True",
+           "metadata holding a tuple that holds a dict with unsorted keys"),
+ 'C03-h': ('C03', "integer option values recognised by trying int() on anything ending in a digit",
+           "option value 1_0 / 2024_01_15 (PEP 515 underscores) becomes an int; length=1_2 accepted"),
+ 'C05-h': ('C05', "DOM writer rewrites a file's path {old: P, new: P} to the plain string P",
+           "file metadata whose path pair has equal old and new"),
+ 'C06-h': ('C06', "DOM reader rewrites a file's path {old: P, new: P} to the plain string P",
+           "file metadata whose path pair has equal old and new"),
+ 'C07-h': ('C07', "type=binary diffs without line_endings are returned without the final-newline check",
+           "a foreign '#...diff: length=N, type=binary' section cut short or with a wrong length"),
+ 'C08-h': ('C08', "metadata without any declared encoding is decoded as utf-8-sig outside the try block",
+           "no encoding anywhere and a non-UTF-8 byte in JSON metadata: UnicodeDecodeError escapes"),
+ 'C09-h': ('C09', "writer memoises encoded newlines per encoding name, inserting ASCII defaults before consulting the codec",
+           "the same unknown codec name used a second time on one writer with write_diff"),
+ 'C13-h': ('C13', "generate_stats feeds the hunk parser from a lazy line generator that never yields an unterminated last line",
+           "a diff whose last line has no final newline"),
+ 'C18-h': ('C18', "DOM writer keeps the streaming writer in self._writer during write_stream; to_bytes uses one module-level DOM writer",
+           "two serialisations overlapping in time (two threads) through one DOM writer / through to_bytes"),
  'C14-c': ('C14', "num_processed_lines returns the line of the last finalised hunk instead of the loop position",
            "ignore_garbage=True with non-hunk lines after the last hunk, or no hunks at all"),
 }
